@@ -191,6 +191,15 @@ func frameBytesF(f []any, tag func(sid uint32) string, trailer bool, front bool)
 		}
 		return h2raw.Frame(h2raw.TContinuation, 0, sid, nil)
 	case "DATA":
+		// the sixth element chooses the form of the frame: plain, padded, or a legal frame that is padding only (no data octets)
+		if len(f) > 5 {
+			switch int(f[5].(float64)) {
+			case 1:
+				return h2raw.Data(sid, es, []byte("abc"), []int{0, 4, 255}[int(sid)%3])
+			case 2:
+				return h2raw.Data(sid, es, nil, []int{0, 3}[int(sid/2)%2])
+			}
+		}
 		return h2raw.Data(sid, es, []byte("abc"), -1)
 	case "RST":
 		return h2raw.RST(sid, 8)
